@@ -218,6 +218,10 @@ def worker(payload):
         for j, (a, b) in enumerate(zip(r["ops"], im)):
             out["ops"] += 1
             op = sc["ops"][j]
+            if op[0] == "call" and not survivors(sc, j):
+                # nothing is registered any more: outside every property (a fully defined function); the generated
+                # entry point of an empty method set takes no arguments at all
+                continue
             ma = {k: v for k, v in a.items() if k in ("o", "t", "nres")}
             if ma.get("o", [None])[0] == "ambiguous":
                 ma["o"] = ["ambiguous"]
